@@ -21,7 +21,7 @@ func malformOrigin(t *rapid.T, o string) Val {
 		host, port = rest[:i], rest[i+1:]
 	}
 	withPort := func(p string) string { return sch + "://" + host + ":" + p }
-	switch uniform(t, "malform", 38) {
+	switch uniform(t, "malform", 42) {
 	case 0:
 		return V(strings.ToUpper(o))
 	case 1:
@@ -93,6 +93,12 @@ func malformOrigin(t *rapid.T, o string) Val {
 		return V(sch + "://" + rest + ".")
 	case 32:
 		return V("*")
+	case 38, 39, 40, 41:
+		// a separator or other stray byte INSIDE a short port (short so that it stays within every length cap)
+		pp := pick(t, "shortport", []string{"1", "44", "8", "80", "443", orStr(port, "90")})
+		k := uniform(t, "strayidx", len(pp)+1)
+		stray := pick(t, "stray", []string{":", ":", ";", "/", ".", "-", "x", "\x3a"})
+		return V(withPort(pp[:k] + stray + pp[k:]))
 	case 34, 35, 36, 37:
 		// a port that is congruent to the listed one (or to "no port") modulo 2^16, 2^32, 2^63 or 2^64
 		base := new(big.Int)
@@ -227,10 +233,22 @@ func genValList(t *rapid.T, label string, one func() Val) []Val {
 		return nil // present with zero values
 	case k < 80:
 		return []Val{one()}
-	case k < 95:
+	case k < 93:
 		return []Val{one(), one()}
-	default:
+	case k < 98:
 		return []Val{one(), one(), one()}
+	default:
+		// many field lines: counts around typical thresholds
+		n := pick(t, label+"_many", []int{4, 8, 16, 17, 18, 64, 256, 257})
+		out := make([]Val, n)
+		for i := range out {
+			if i < 3 {
+				out[i] = one()
+			} else {
+				out[i] = out[i%3]
+			}
+		}
+		return out
 	}
 }
 
@@ -257,9 +275,55 @@ func genReq(t *rapid.T, p reqPools) Req {
 			return V(pick(t, "acrpnv", []string{"true", "true", "true", "false", "TRUE", "", "true ", "1"}))
 		})})
 	}
-	if chance(t, "other", 20) {
-		r.Hdr = append(r.Hdr, HV{pick(t, "otherk", []string{"X-Other", "Cookie", "Authorization", "Content-Type", "origin", "Access-Control-Request-Methods"}),
-			Vals(pick(t, "otherv", []string{"1", "a=b", "https://example.com", "PUT"}))})
+	genOtherHeaders(t, &r)
+	if chance(t, "target", 12) {
+		r.Target = pick(t, "targetv", []string{"*", "*", "/a/b?x=1", "/", "/*", "//double"})
+	}
+	if chance(t, "proto", 10) {
+		r.Proto = pick(t, "protov", []string{"1.0", "2"})
 	}
 	return r
+}
+
+// commonRequestHeaders: request headers the middleware must NOT care about,
+// alone and in the combinations in which they occur in practice.
+var commonRequestHeaders = [][]HV{
+	{{"Connection", Vals("Upgrade")}, {"Upgrade", Vals("websocket")}, {"Sec-Websocket-Key", Vals("dGhlIHNhbXBsZSBub25jZQ==")}, {"Sec-Websocket-Version", Vals("13")}},
+	{{"Connection", Vals("keep-alive, Upgrade")}, {"Upgrade", Vals("websocket")}},
+	{{"Connection", Vals("close")}},
+	{{"Sec-Fetch-Mode", Vals("cors")}, {"Sec-Fetch-Site", Vals("cross-site")}, {"Sec-Fetch-Dest", Vals("empty")}},
+	{{"Sec-Fetch-Mode", Vals("no-cors")}},
+	{{"Sec-Fetch-Mode", Vals("navigate")}, {"Sec-Fetch-Site", Vals("same-origin")}},
+	{{"Authorization", Vals("Bearer xyz")}},
+	{{"Cookie", Vals("a=b")}},
+	{{"Content-Type", Vals("application/json")}},
+	{{"Content-Type", Vals("text/plain")}},
+	{{"Accept", Vals("*/*")}},
+	{{"Range", Vals("bytes=0-1")}},
+	{{"If-None-Match", Vals("\"abc\"")}},
+	{{"X-Requested-With", Vals("XMLHttpRequest")}},
+	{{"X-Forwarded-Host", Vals("example.com")}, {"X-Forwarded-Proto", Vals("https")}, {"Forwarded", Vals("for=1.2.3.4;proto=https")}},
+	{{"Referer", Vals("https://example.com/page")}},
+	{{"User-Agent", Vals("curl/8")}},
+	{{"Host", Vals("example.com")}},
+	{{"Te", Vals("trailers")}},
+	{{"Expect", Vals("100-continue")}},
+	{{"Via", Vals("1.1 proxy")}},
+	{{"Access-Control-Request-Local-Network", Vals("true")}},
+	{{"Access-Control-Request-Methods", Vals("PUT")}},
+	{{"origin", Vals("https://example.com")}},
+	{{"X-Other", Vals("1")}},
+	{{"Service-Worker", Vals("script")}},
+	{{"Purpose", Vals("prefetch")}},
+	{{"Cache-Control", Vals("no-cache")}, {"Pragma", Vals("no-cache")}},
+}
+
+func genOtherHeaders(t *rapid.T, r *Req) {
+	for i, n := 0, pick(t, "nother", []int{0, 0, 0, 1, 1, 2}); i < n; i++ {
+		for _, hv := range pick(t, "otherset", commonRequestHeaders) {
+			if _, dup := r.Get(hv.Key); !dup {
+				r.Hdr = append(r.Hdr, hv)
+			}
+		}
+	}
 }
